@@ -14,16 +14,23 @@ theorem tie_src_beacon_callbackStore_Put : Gen.ScriptsC11.beacon_callbackStore_P
   "  return err",
   " }",
   " if b.Round != 0 {",
-  "  c.RLock()",
-  "  defer c.RUnlock()",
+  "  c.Lock()",
+  "  defer c.Unlock()",
   "  for id, cb := range c.callbacks {",
   "   j, ok := c.newJob[id]",
   "   if !ok {",
   "    continue",
   "   }",
-  "   j <- cbPair{",
-  "    cb: cb,",
-  "    b: b,",
+  "   job := cbPair{cb: cb, b: b}",
+  "   if !c.workers[id].stream {",
+  "    j <- job",
+  "    continue",
+  "   }",
+  "   select {",
+  "   case j <- job:",
+  "   default:",
+  "    c.stopWorker(id, true)",
+  "    delete(c.callbacks, id)",
   "   }",
   "  }",
   " }",
@@ -33,21 +40,7 @@ theorem tie_src_beacon_callbackStore_Put : Gen.ScriptsC11.beacon_callbackStore_P
 
 theorem tie_src_beacon_callbackStore_AddCallback : Gen.ScriptsC11.beacon_callbackStore_AddCallback = [
   "func (c *callbackStore) AddCallback(id string, fn CallbackFunc) {",
-  " c.Lock()",
-  " defer c.Unlock()",
-  " if jobChan, exists := c.newJob[id]; exists {",
-  "  jobChan <- cbPair{",
-  "   cb: c.callbacks[id],",
-  "   b: nil,",
-  "   close: true,",
-  "  }",
-  "  close(jobChan)",
-  "  delete(c.newJob, id)",
-  " }",
-  " c.callbacks[id] = fn",
-  " c.newJob[id] = make(chan cbPair, CallbackWorkerQueue)",
-  " loggerName := c.l.Name()",
-  " go c.runWorker(c.newJob[id])",
+  " c.addCallback(id, fn, false)",
   "}"
 ] := rfl
 
@@ -57,26 +50,69 @@ theorem tie_src_beacon_callbackStore_RemoveCallback : Gen.ScriptsC11.beacon_call
   " defer c.Unlock()",
   " delete(c.callbacks, id)",
   " if _, exists := c.newJob[id]; exists {",
-  "  close(c.newJob[id])",
-  "  delete(c.newJob, id)",
+  "  c.stopWorker(id, false)",
   " }",
   " loggerName := c.l.Name()",
   "}"
 ] := rfl
 
 theorem tie_src_beacon_callbackStore_runWorker : Gen.ScriptsC11.beacon_callbackStore_runWorker = [
-  "func (c *callbackStore) runWorker(jobChan chan cbPair) {",
+  "func (c *callbackStore) runWorker(jobChan chan cbPair, w *cbWorker) {",
   " for {",
   "  select {",
   "  case <-c.stopping:",
   "   return",
   "  case newJob, ok := <-jobChan:",
   "   if !ok {",
+  "    if w.closed != nil {",
+  "     w.closed(nil, true)",
+  "    }",
   "    return",
   "   }",
   "   newJob.cb(newJob.b, newJob.close)",
   "  }",
   " }",
+  "}"
+] := rfl
+
+theorem tie_src_beacon_callbackStore_AddStreamCallback : Gen.ScriptsC11.beacon_callbackStore_AddStreamCallback = [
+  "func (c *callbackStore) AddStreamCallback(id string, fn CallbackFunc) func() {",
+  " jobChan := c.addCallback(id, fn, true)",
+  " return func() {",
+  "  c.Lock()",
+  "  defer c.Unlock()",
+  "  if c.newJob[id] == jobChan {",
+  "   delete(c.callbacks, id)",
+  "   c.stopWorker(id, false)",
+  "  }",
+  " }",
+  "}"
+] := rfl
+
+theorem tie_src_beacon_callbackStore_addCallback : Gen.ScriptsC11.beacon_callbackStore_addCallback = [
+  "func (c *callbackStore) addCallback(id string, fn CallbackFunc, stream bool) chan cbPair {",
+  " c.Lock()",
+  " defer c.Unlock()",
+  " if _, exists := c.newJob[id]; exists {",
+  "  c.stopWorker(id, true)",
+  " }",
+  " c.callbacks[id] = fn",
+  " c.newJob[id] = make(chan cbPair, CallbackWorkerQueue)",
+  " c.workers[id] = &cbWorker{stream: stream}",
+  " loggerName := c.l.Name()",
+  " go c.runWorker(c.newJob[id], c.workers[id])",
+  " return c.newJob[id]",
+  "}"
+] := rfl
+
+theorem tie_src_beacon_callbackStore_stopWorker : Gen.ScriptsC11.beacon_callbackStore_stopWorker = [
+  "func (c *callbackStore) stopWorker(id string, notify bool) {",
+  " if notify {",
+  "  c.workers[id].closed = c.callbacks[id]",
+  " }",
+  " close(c.newJob[id])",
+  " delete(c.newJob, id)",
+  " delete(c.workers, id)",
   "}"
 ] := rfl
 
@@ -127,24 +163,27 @@ theorem tie_src_beacon_SyncChain : Gen.ScriptsC11.beacon_SyncChain = [
   "  }",
   " }",
   " errChan := make(chan error, 1)",
-  " store.AddCallback(id, func(b *commonutils.Beacon, closed bool) {",
+  " remove := store.AddStreamCallback(id, func(b *commonutils.Beacon, closed bool) {",
   "  select {",
   "  case <-ctx.Done():",
   "   return",
   "  default:",
   "  }",
+  "  var err error",
   "  if closed {",
-  "   errChan <- ErrCallbackReplaced",
-  "   return",
+  "   err = ErrCallbackReplaced",
+  "  } else if err = send(b); err != nil {",
   "  }",
-  "  if err := send(b); err != nil {",
-  "   store.RemoveCallback(id)",
-  "   errChan <- err",
+  "  if err != nil {",
+  "   select {",
+  "   case errChan <- err:",
+  "   default:",
+  "   }",
   "  }",
   " })",
+  " defer remove()",
   " select {",
   " case <-ctx.Done():",
-  "  store.RemoveCallback(id)",
   "  return ctx.Err()",
   " case err := <-errChan:",
   "  return err",
